@@ -287,6 +287,32 @@ func runReplay(path string) int {
 	if rf.Engine == "store" {
 		return props.ReplayStore(rf)
 	}
+	if rf.Engine == "echo" && rf.Echo != nil && rf.Echo.Part != "" {
+		// a worker process that died after a history of runs: the same share again, in a child
+		e := rf.Echo
+		cmd := exec.Command(os.Args[0], "worker", "prop="+rf.Property, "tier="+e.Tier, "seed="+strconv.FormatUint(e.Seed, 10), "part="+e.Part,
+			"from="+strconv.Itoa(e.From), "to="+strconv.Itoa(e.To+1), "stride="+strconv.Itoa(e.Stride), "race=0", "out="+os.TempDir())
+		var eb headBuffer
+		cmd.Stderr = &eb
+		err := cmd.Run()
+		st := eb.String()
+		if err != nil {
+			for _, key := range []string{"fatal error:", "unexpected signal", "panic:", "runtime: out of memory"} {
+				if i := strings.Index(st, key); i >= 0 {
+					line := st[i:]
+					if j := strings.IndexByte(line, '\n'); j > 0 {
+						line = line[:j]
+					}
+					fmt.Printf("VIOLATION property=%s replay=%s\n  reproduced: after runs %d, %d, ... the process died at run %d: %s\n", rf.Property, path, e.From, e.From+e.Stride, e.To, line)
+					return 1
+				}
+			}
+			fmt.Fprintln(os.Stderr, "replay worker failed:", err, tail(st, 1500))
+			return 2
+		}
+		fmt.Println("not reproduced: the worker's share ran to the end")
+		return 0
+	}
 	if rf.Engine == "echo" && rf.Echo != nil {
 		e := rf.Echo
 		var first uint64
